@@ -4,6 +4,7 @@ mod graph;
 mod keys;
 mod machines;
 mod tables;
+mod trace;
 
 use std::fs::File;
 use std::io::{BufWriter, Write};
@@ -75,6 +76,23 @@ fn main() {
                         break;
                     }
                 }
+            }
+        }
+        "trace" => {
+            // pkv trace noise <component> <seed> <runs> <calls-per-run> <out.ndjson>
+            // pkv trace script <component> <scenarios.json> <out.ndjson>
+            if args.len() >= 8 && args[2] == "noise" {
+                let mut w = BufWriter::new(File::create(&args[7]).expect("create output"));
+                trace::noise(&args[3], args[4].parse().expect("seed"), args[5].parse().expect("runs"), args[6].parse().expect("n"), &mut w);
+                w.flush().unwrap();
+            } else if args.len() >= 6 && args[2] == "script" {
+                let txt = std::fs::read_to_string(&args[4]).expect("read scenarios");
+                let v: serde_json::Value = serde_json::from_str(&txt).expect("parse scenarios");
+                let mut w = BufWriter::new(File::create(&args[5]).expect("create output"));
+                trace::scripted(&args[3], &v, &mut w);
+                w.flush().unwrap();
+            } else {
+                usage();
             }
         }
         "cells" => {
